@@ -237,7 +237,7 @@ def prop_pow(case, stats):
         x, r = case['x'], typed(case['rk'], case['r'])
         D, P = x.shape[:2]
         what = 'UTPM%s%s ** %s(%r)' % (x.shape[2:], 'c' if np.iscomplexobj(x) else '', type(r).__name__, r)
-        y = guard(operator.pow, UTPM(x.copy()), r)
+        y = guard(operator.pow, UTPM(ref.relayout(x, case.get('lay'))), r)
         _chk_utpm(y, x.shape, what)
         rm = _mp_exponent(r)
         for pos in _positions(case, P, x.shape[2:]):
@@ -249,7 +249,7 @@ def prop_pow(case, stats):
         x, r = case['x'], typed(case['rk'], case['r'])
         D, P = x.shape[:2]
         what = '%s(%r) ** UTPM%s%s' % (type(r).__name__, r, x.shape[2:], 'c' if np.iscomplexobj(x) else '')
-        y = guard(operator.pow, r, UTPM(x.copy()))
+        y = guard(operator.pow, r, UTPM(ref.relayout(x, case.get('lay'))))
         _chk_utpm(y, x.shape, what)
         rm = mpmath.mpf(float(r))
         for pos in _positions(case, P, x.shape[2:]):
@@ -262,7 +262,7 @@ def prop_pow(case, stats):
         D, P = x.shape[:2]
         S = tuple(np.broadcast_shapes(x.shape[2:], e.shape[2:]))
         what = 'UTPM%s%s ** UTPM%s%s' % (x.shape[2:], 'c' if np.iscomplexobj(x) else '', e.shape[2:], 'c' if np.iscomplexobj(e) else '')
-        y = guard(operator.pow, UTPM(x.copy()), UTPM(e.copy()))
+        y = guard(operator.pow, UTPM(ref.relayout(x, case.get('lay'))), UTPM(e.copy()))
         _chk_utpm(y, (D, P) + S, what)
         xb = np.broadcast_to(_bshape(x, S), (D, P) + S)
         eb = np.broadcast_to(_bshape(e, S), (D, P) + S)
@@ -292,7 +292,7 @@ def _pow_rational(case, stats):
     x, n = case['x'], typed(case['rk'], case['r'])
     D, P = x.shape[:2]
     what = 'UTPM%s%s ** %s(%r)' % (x.shape[2:], 'c' if np.iscomplexobj(x) else '', type(n).__name__, n)
-    y = guard(operator.pow, UTPM(x.copy()), n)
+    y = guard(operator.pow, UTPM(ref.relayout(x, case.get('lay'))), n)
     _chk_utpm(y, x.shape, what)
     refs = []
     for p in range(P):
@@ -525,8 +525,114 @@ def _keep_rank(draw, shape):
     return tuple(1 if draw(st.integers(0, 3)) == 0 else n for n in shape)
 
 
-def _dims(draw, tier, Dmax=8):
+BIG_D = (12, 16, 24)
+
+
+def _dims(draw, tier, Dmax=8, big=False):
+    if big:
+        # long series: exercises kernels that switch algorithm with D (exact regime only, small shapes)
+        return draw(st.sampled_from(BIG_D)), draw(st.sampled_from([1, 2]))
     return draw(gen.dims(Dmax=Dmax, Pmax=3))
+
+
+LAYOUTS = ['C', 'C', 'C', 'F', 'T', 'strided', 'rev']
+
+
+def _set_layout(draw, o):
+    """memory layout of the live array of a UTPM / ndarray operand (values are unaffected)"""
+    if o['kind'] == 'utpm' or ref.is_array_kind(o['kind']):
+        lay = draw(st.sampled_from(LAYOUTS))
+        if lay != 'C':
+            o['lay'] = lay
+    return o
+
+
+@st.composite
+def _small_pair(draw):
+    a = tuple(draw(gen.shapes(max_rank=2, max_side=2)))
+    how = draw(st.sampled_from(['same', 'same', 'scalar', 'weak']))
+    if how == 'same':
+        return a, a, 'same'
+    if how == 'scalar':
+        return a, (), 'mb'
+    return a, tuple(1 if draw(st.booleans()) else n for n in a), 'ones'
+
+
+_ILIM = {dt: (int(np.iinfo(dt).min), int(np.iinfo(dt).max)) for dt in ('uint8', 'uint16', 'uint32', 'uint64', 'int8', 'int16', 'int32')}
+
+
+@st.composite
+def xconst_operand(draw, kind, shape, regime, divisor=False):
+    """constant of an unusual NumPy dtype (unsigned / small signed integers with values at the limits of the type, bool,
+    float16, longdouble / clongdouble), scalar ('npx.*') or ndarray ('ndx.*')"""
+    cls = kind.split('.')[1]
+    arr = kind.startswith('ndx.')
+    shape = tuple(shape)
+    dts = list(ref.XDTYPES[cls]) + (['pybool'] if (cls == 'bool' and not arr) else [])
+    dt = draw(st.sampled_from(dts))
+    o = {'kind': kind, 'dt': dt}
+    ex = regime == 'exact'
+    if cls in ('uint', 'sint'):
+        lo, hi = _ILIM[dt]
+        sp = [hi, hi, hi - 1, lo, lo + 1, (hi + 1) // 2, (hi + 1) // 2 - 1, 0, 1, 2, 3, -1, -2, 100, -100]
+        sp = [v for v in sp if lo <= v <= hi and not (divisor and v == 0)]
+        rnd = st.integers(max(lo, -100), min(hi, 300)).map(lambda v: 1 if (divisor and v == 0) else v)
+        el = st.one_of(st.sampled_from(sp), rnd)
+        if arr:
+            o['v'] = draw(hnp.arrays(np.dtype(dt), shape, elements=el, fill=st.nothing()))
+        else:
+            o['v'] = int(draw(el))
+    elif cls == 'bool':
+        el = st.just(True) if divisor else st.booleans()
+        if arr:
+            o['v'] = draw(hnp.arrays(np.bool_, shape, elements=el, fill=st.nothing()))
+        else:
+            o['v'] = bool(draw(el))
+    elif cls == 'float16':
+        if arr:
+            if ex:
+                a = draw(_dyarr(shape, 12, nonzero=divisor))
+            else:
+                a = draw(_spec_arr(shape, DIVBASE)) if divisor else draw(_spec_arr(shape, ('iv', -4.0, 4.0, (0.0, 1.0, 65504.0, -65504.0, 2.0 ** -14))))
+            o['v'] = np.asarray(a).astype(np.float16)
+        else:
+            if ex:
+                v = draw(st.integers(1, 12)) * draw(st.sampled_from([1, -1])) / 4.0 if divisor else draw(st.integers(-12, 12)) / 4.0
+            else:
+                v = draw(_spec_scalar(DIVBASE if divisor else ('iv', -4.0, 4.0, (0.0, 1.0, 65504.0, -65504.0, 2.0 ** -14))))
+            o['v'] = float(np.float16(v))
+    elif cls == 'longdouble':
+        cplx = dt == 'clongdouble'
+        if arr:
+            re = draw(_dyarr(shape, 12, nonzero=divisor)) if ex else (draw(_spec_arr(shape, DIVBASE)) if divisor else draw(_farr(shape, -4.0, 4.0)))
+            v = np.asarray(re, dtype=np.float64)
+            if cplx:
+                im = draw(_dyarr(shape, 8)) if ex else draw(_farr(shape, -2.0, 2.0))
+                v = np.asarray(v + 1j * im, dtype=np.complex128)
+            o['v'] = v
+            if not ex:
+                j = draw(hnp.arrays(np.int64, shape, elements=st.integers(-127, 127), fill=st.nothing()))
+                e = np.frexp(np.asarray(v.real, dtype=np.float64))[1]
+                o['lo'] = np.where(v.real != 0, np.ldexp(j.astype(np.float64), e - 60), 0.0)
+        else:
+            if ex:
+                re = draw(st.integers(1, 12)) * draw(st.sampled_from([1, -1])) / 4.0 if divisor else draw(st.integers(-12, 12)) / 4.0
+                im = draw(st.integers(-8, 8)) / 4.0
+            else:
+                re = draw(_spec_scalar(DIVBASE if divisor else ('iv', -4.0, 4.0, (0.0, 1.0, -1.0))))
+                im = draw(_spec_scalar(('iv', -2.0, 2.0, (0.0,))))
+            o['v'] = complex(re, im) if cplx else float(re)
+            if not ex and re != 0:
+                o['lo'] = float(np.ldexp(float(draw(st.integers(-127, 127))), int(np.frexp(re)[1]) - 60))
+    else:
+        raise KeyError(kind)
+    return o
+
+
+def _const(draw, kind, shape, regime, divisor=False):
+    if kind in ref.XSCALAR_KINDS or kind in ref.XARRAY_KINDS:
+        return draw(xconst_operand(kind, shape, regime, divisor=divisor))
+    return draw(const_operand(kind, shape, regime, divisor=divisor))
 
 
 def _regime(draw):
@@ -538,30 +644,32 @@ def _entry(draw):
 
 
 @st.composite
-def binary_cases(draw, op, lk, rk, tier):
+def binary_cases(draw, op, lk, rk, tier, big=False):
     """lk, rk: operand kinds; at least one is 'utpm'"""
-    D, P = _dims(draw, tier)
-    regime = _regime(draw)
+    D, P = _dims(draw, tier, big=big)
+    regime = 'exact' if big else _regime(draw)
     steered = []
     case = {'form': 'binary', 'op': op, 'regime': regime, 'entry': _entry(draw)}
     if lk == 'utpm' and rk == 'utpm':
-        sa, sb, lab = draw(shape_pair(D, P))
+        sa, sb, lab = draw(_small_pair()) if big else draw(shape_pair(D, P))
         if draw(st.booleans()):
             sa, sb = sb, sa
         ca = draw(st.integers(0, 2)) == 0
         cb = draw(st.integers(0, 2)) == 0
-        case['L'] = {'kind': 'utpm', 'data': draw(utpm_data(D, P, sa, regime, ca))}
-        case['R'] = {'kind': 'utpm', 'data': draw(utpm_data(D, P, sb, regime, cb, divisor=(op == 'truediv')))}
+        case['L'] = _set_layout(draw, {'kind': 'utpm', 'data': draw(utpm_data(D, P, sa, regime, ca))})
+        case['R'] = _set_layout(draw, {'kind': 'utpm', 'data': draw(utpm_data(D, P, sb, regime, cb, divisor=(op == 'truediv')))})
         case['shapes'] = lab
         return case
     ck = rk if lk == 'utpm' else lk
     const_left = lk != 'utpm'
-    if ck in ref.ARRAY_KINDS:
+    if ref.is_array_kind(ck):
         sx, sc, lab = draw(shape_pair(D, P))
     else:
         sx, sc, lab = tuple(draw(gen.shapes(max_rank=3, max_side=3))), (), 'scalar'
     cplx_const = ck in ref.COMPLEX_KINDS
     xc = draw(st.integers(0, 2 if cplx_const else 1)) == 0
+    if ck.endswith('.longdouble'):
+        xc = draw(st.integers(0, 2)) == 0
     if const_left and op == 'truediv' and KF.is_open(KF_RTRUEDIV):
         # open finding: constant / polynomial (__rtruediv__) fails for a complex-typed constant over a real polynomial and
         # for an array that does not broadcast INTO the polynomial's shape: steer to the neighbouring supported form
@@ -573,8 +681,10 @@ def binary_cases(draw, op, lk, rk, tier):
             lab += '>into'
             if KF_RTRUEDIV not in steered:
                 steered.append(KF_RTRUEDIV)
-    x = {'kind': 'utpm', 'data': draw(utpm_data(D, P, sx, regime, xc, divisor=(op == 'truediv' and const_left)))}
-    c = draw(const_operand(ck, sc, regime, divisor=(op == 'truediv' and not const_left)))
+    x = _set_layout(draw, {'kind': 'utpm', 'data': draw(utpm_data(D, P, sx, regime, xc, divisor=(op == 'truediv' and const_left)))})
+    c = _set_layout(draw, _const(draw, ck, sc, regime, divisor=(op == 'truediv' and not const_left)))
+    if ref.const_big(c):
+        case['regime'] = 'float'     # e.g. uint64 max: float64 arithmetic on it rounds, compare with the tolerance
     case['L'], case['R'] = (c, x) if const_left else (x, c)
     case['shapes'] = lab
     if steered:
@@ -587,13 +697,15 @@ INPLACE_FAMILY = {
     'pyscalar': ['pyint', 'pyfloat', 'pycomplex'],
     'npscalar': ['np.float64', 'np.float32', 'np.int64', 'np.complex128'],
     'ndarray': ['nd.float', 'nd.int', 'nd.complex'],
+    'xscalar': list(ref.XSCALAR_KINDS),
+    'xndarray': list(ref.XARRAY_KINDS),
 }
 
 
 @st.composite
-def inplace_cases(draw, op, fam, tier):
-    D, P = _dims(draw, tier)
-    regime = _regime(draw)
+def inplace_cases(draw, op, fam, tier, big=False):
+    D, P = _dims(draw, tier, big=big)
+    regime = 'exact' if big else _regime(draw)
     steered = []
     case = {'form': 'inplace', 'op': op, 'regime': regime}
     if fam == 'alias':
@@ -612,7 +724,7 @@ def inplace_cases(draw, op, fam, tier):
             steered.append(KF_IDIV)
         xc = draw(st.integers(0, 2)) == 0
         x = draw(utpm_data(D, P, sx, regime, xc, divisor=(op == 'truediv')))
-        case['L'] = {'kind': 'utpm', 'data': x}
+        case['L'] = _set_layout(draw, {'kind': 'utpm', 'data': x})
         R = {'kind': 'alias', 'how': how}
         if op == 'mul' and D >= 2 and KF.is_open(KF_IMUL):
             # open finding: x *= (x or a view of x).  Neighbouring form: an independent operand with the same values
@@ -623,8 +735,8 @@ def inplace_cases(draw, op, fam, tier):
             case['steered'] = steered
         return case
     rk = draw(st.sampled_from(INPLACE_FAMILY[fam]))
-    if rk == 'utpm' or rk in ref.ARRAY_KINDS:
-        sa, sb, lab = draw(shape_pair(D, P))
+    if rk == 'utpm' or ref.is_array_kind(rk):
+        sa, sb, lab = draw(_small_pair()) if big else draw(shape_pair(D, P))
         sx = tuple(np.broadcast_shapes(sa, sb))      # the right operand broadcasts INTO the left one
         sr = sb
         if rk == 'utpm' and op == 'truediv' and len(sr) < len(sx) and KF.is_open(KF_IDIV):
@@ -633,13 +745,17 @@ def inplace_cases(draw, op, fam, tier):
     else:
         sx, sr, lab = tuple(draw(gen.shapes(max_rank=3, max_side=3))), (), 'scalar'
     rc = (rk in ref.COMPLEX_KINDS) or (rk == 'utpm' and draw(st.integers(0, 2)) == 0)
+    if rk == 'utpm':
+        R = {'kind': 'utpm', 'data': draw(utpm_data(D, P, sr, regime, rc, divisor=(op == 'truediv')))}
+    else:
+        R = _const(draw, rk, sr, regime, divisor=(op == 'truediv'))
+        rc = ref.opd_is_complex(R)
+        if ref.const_big(R):
+            case['regime'] = 'float'
     # the result must be castable into the left operand: complex right operand => complex left operand
     xc = True if rc else draw(st.integers(0, 1)) == 0
-    case['L'] = {'kind': 'utpm', 'data': draw(utpm_data(D, P, sx, regime, xc))}
-    if rk == 'utpm':
-        case['R'] = {'kind': 'utpm', 'data': draw(utpm_data(D, P, sr, regime, rc, divisor=(op == 'truediv')))}
-    else:
-        case['R'] = draw(const_operand(rk, sr, regime, divisor=(op == 'truediv')))
+    case['L'] = _set_layout(draw, {'kind': 'utpm', 'data': draw(utpm_data(D, P, sx, regime, xc))})
+    case['R'] = _set_layout(draw, R)
     case['shapes'] = lab
     if steered:
         case['steered'] = steered
@@ -649,14 +765,17 @@ def inplace_cases(draw, op, fam, tier):
 
 
 @st.composite
-def pow_cases(draw, kind, tier):
-    D, P = _dims(draw, tier)
-    shape = tuple(draw(gen.shapes(max_rank=2, max_side=3)))
+def pow_cases(draw, kind, tier, big=False):
+    D, P = _dims(draw, tier, big=big)
+    shape = tuple(draw(gen.shapes(max_rank=2, max_side=2 if big else 3)))
     case = {'form': 'pow', 'kind': kind, 'pos': None}
+    lay = draw(st.sampled_from(LAYOUTS))
+    if lay != 'C':
+        case['lay'] = lay
     steered = []
     xc = draw(st.integers(0, 2)) == 0
     if kind == 'int':
-        regime = _regime(draw)
+        regime = 'exact' if big else _regime(draw)
         case['regime'] = regime
         case['r'] = draw(st.sampled_from([0, 1, 2, 2, 3, 3, 4, 5]))
         case['rk'] = 'pyint'
@@ -765,6 +884,8 @@ def _classes(case):
         x = case['x']
         c += ['D=%d' % x.shape[0], 'P=%d' % x.shape[1], 'rank=%d' % (x.ndim - 2), 'pow=' + case['kind'],
               'base=' + ('complex' if np.iscomplexobj(x) else 'real'), 'pattern=' + gen.pattern_class(x)]
+        if case.get('lay'):
+            c.append('layout=%s(utpm)' % case['lay'])
         if 'r' in case:
             c.append(('base-type=' if case['kind'] == 'rpow' else 'exponent-type=') + case['rk'])
             if case['kind'] in ('int', 'npint'):
@@ -814,9 +935,20 @@ def _classes(case):
     c.append('values=' + ('complex' if lc and rc else 'mixed-real-complex' if lc != rc else 'real'))
     if ref.opd_nonconstant(L) and ref.opd_nonconstant(Ri):
         c.append('both-nonconstant')
-    for o in (L, Ri):
+    for o in (L, R):
         if o['kind'] == 'utpm':
             c.append('pattern=' + gen.pattern_class(o['data']))
+        if o.get('lay'):
+            c.append('layout=%s(%s)' % (o['lay'], 'utpm' if o['kind'] == 'utpm' else 'const'))
+        if 'dt' in o:
+            c.append('const-dtype=' + o['dt'])
+            if o['dt'] in _ILIM:
+                a = np.asarray(o['v'])
+                lo_, hi_ = _ILIM[o['dt']]
+                if np.any(a == hi_) or (lo_ < 0 and np.any(a == lo_)):
+                    c.append('const-at-dtype-limit')
+            if 'lo' in o and np.any(np.asarray(o['lo']) != 0):
+                c.append('const-beyond-float64-resolution')
     return c
 
 
@@ -848,6 +980,26 @@ def buckets(tier):
             bl.append(Bucket('i%s:%s' % (op, fam), (lambda op=op, fam=fam: inplace_cases(op, fam, tier)), prop,
                              {'quick': 140, 'thorough': 650}, nontrivial=_nontrivial, classes=_classes,
                              shards={'quick': 1, 'thorough': 2}, weight=3.0 if fam in ('utpm', 'alias') else 1.5))
+    # constants of unusual NumPy dtypes (values at the limits of the type), scalar and ndarray, on either side
+    for op in OPS:
+        for xk in ref.XSCALAR_KINDS + ref.XARRAY_KINDS:
+            for lk, rk in (('utpm', xk), (xk, 'utpm')):
+                bl.append(Bucket('%s:%s:%s' % (op, lk, rk),
+                                 (lambda op=op, lk=lk, rk=rk: binary_cases(op, lk, rk, tier)), prop,
+                                 {'quick': 60, 'thorough': 500}, nontrivial=_nontrivial, classes=_classes,
+                                 weight=2.0 if op in ('mul', 'truediv') else 1.0))
+        for fam in ('xscalar', 'xndarray'):
+            bl.append(Bucket('i%s:%s' % (op, fam), (lambda op=op, fam=fam: inplace_cases(op, fam, tier)), prop,
+                             {'quick': 140, 'thorough': 650}, nontrivial=_nontrivial, classes=_classes,
+                             shards={'quick': 1, 'thorough': 2}, weight=1.5))
+    # long series, D in {12, 16, 24}, exact regime (kernels that change algorithm with D)
+    for op in ('mul', 'truediv'):
+        bl.append(Bucket('bigD:%s' % op, (lambda op=op: binary_cases(op, 'utpm', 'utpm', tier, big=True)), prop,
+                         {'quick': 40, 'thorough': 300}, nontrivial=_nontrivial, classes=_classes, weight=20.0))
+        bl.append(Bucket('bigD:i%s' % op, (lambda op=op: inplace_cases(op, 'utpm', tier, big=True)), prop,
+                         {'quick': 40, 'thorough': 300}, nontrivial=_nontrivial, classes=_classes, weight=20.0))
+    bl.append(Bucket('bigD:pow:int', (lambda: pow_cases('int', tier, big=True)), prop,
+                     {'quick': 40, 'thorough': 300}, nontrivial=_nontrivial, classes=_classes, weight=20.0))
     for kind in ('int', 'negint', 'npint', 'real', 'complex', 'rpow', 'utpm'):
         slow = kind in ('real', 'complex', 'rpow', 'utpm')
         bl.append(Bucket('pow:' + kind, (lambda kind=kind: pow_cases(kind, tier)), prop,
